@@ -655,8 +655,16 @@ pub fn cmd_c10(tier: &str, out: &str) {
             stream.extend(&nears[i + 1]);
             stream.extend(&posts[i + 1]);
         }
+        // every fourth case: the input ends in a cut-off transmission (start sequence + body without 0x1b, no end)
+        let tail: Vec<u8> = if case % 4 == 3 {
+            let l = if rng.chance(1, 3) { 0 } else { rng.below(12) };
+            START.iter().cloned().chain((0..l).map(|_| { let b = rng.byte(); if b == 0x1b { 0x1c } else { b } })).collect()
+        } else {
+            vec![]
+        };
+        stream.extend(&tail);
         // expected number of results: noise reports + near-frame errors + values + end; calls: that many plus 3 more
-        let nres = k + noises.iter().filter(|g| !g.is_empty()).count() + nears.iter().filter(|g| !g.is_empty()).count() + posts.iter().filter(|g| !g.is_empty()).count() + 3;
+        let nres = k + noises.iter().filter(|g| !g.is_empty()).count() + nears.iter().filter(|g| !g.is_empty()).count() + posts.iter().filter(|g| !g.is_empty()).count() + 3 + (!tail.is_empty()) as usize;
         let calls: Vec<(u8, u8)> = (0..nres)
             .map(|_| (if case % 5 == 1 { 1 } else if case % 5 == 2 { rng.below(2) as u8 } else if case % 5 == 3 { rng.below(4) as u8 } else if case % 5 == 4 { 2 } else { 0 }, if case % 3 == 0 { (case / 3 % 3) as u8 } else { rng.below(3) as u8 }))
             .collect();
@@ -675,11 +683,12 @@ pub fn cmd_c10(tier: &str, out: &str) {
             let key = format!("{:?}|{:?}|{}|{}", stream, calls, src, buf);
             ks.put(&key, || {
                 format!(
-                    "{{\"files\":{},\"noise\":{},\"near\":{},\"post\":{},\"stream\":{},\"src\":{},\"buf\":{},\"nfix\":{},\"calls\":{},\"res\":[{}],\"hand\":[{}]}}",
+                    "{{\"files\":{},\"noise\":{},\"near\":{},\"post\":{},\"tail\":{},\"stream\":{},\"src\":{},\"buf\":{},\"nfix\":{},\"calls\":{},\"res\":[{}],\"hand\":[{}]}}",
                     jarr2(&files.iter().map(|f| f.iter().map(|b| *b as i64).collect()).collect::<Vec<Vec<i64>>>()),
                     jarr2(&noises.iter().map(|f| f.iter().map(|b| *b as i64).collect()).collect::<Vec<Vec<i64>>>()),
                     jarr2(&nears.iter().map(|f| f.iter().map(|b| *b as i64).collect()).collect::<Vec<Vec<i64>>>()),
                     jarr2(&posts.iter().map(|f| f.iter().map(|b| *b as i64).collect()).collect::<Vec<Vec<i64>>>()),
+                    jarr(&tail),
                     jarr(&stream),
                     src,
                     buf,
